@@ -25,6 +25,7 @@ from typing import Any, Dict
 
 from nemoguardrails.colang.v2_x.lang import colang_ast as colang_ast_module
 from nemoguardrails.colang.v2_x.runtime import flows as flows_module
+from nemoguardrails.colang.v2_x.runtime.eval import ComparisonExpression
 from nemoguardrails.colang.v2_x.runtime.flows import Action, State
 from nemoguardrails.colang.v2_x.runtime.statemachine import _flow_head_changed
 from nemoguardrails.rails.llm.config import RailsConfig
@@ -110,6 +111,8 @@ def encode_to_dict(obj: Any, refs: Dict[int, Any]):
             }
         elif isinstance(obj, datetime):
             value = {"__type": "datetime", "value": obj.isoformat()}
+        elif isinstance(obj, ComparisonExpression) and obj.name is not None:
+            value = {"__type": "comparison", "name": obj.name, "value": obj.value}
         elif isinstance(obj, re.Pattern):
             value = {"__type": "regex", "value": obj.pattern, "flags": obj.flags}
         elif isinstance(obj, Enum):
@@ -182,6 +185,9 @@ def decode_from_dict(d: Any, refs: Dict[int, Any]):
 
             elif d_type == "regex":
                 value = re.compile(d["value"], d["flags"])
+
+            elif d_type == "comparison":
+                value = ComparisonExpression.from_name(d["name"], d["value"])
 
             elif d_type == "deque":
                 value = deque(decode_from_dict(d["value"], refs))
